@@ -718,6 +718,12 @@ func main() {
 			// e.g. the signature of a request with an empty body is a valid signature of every other
 			// request with an empty body: the verdict is the reference predicate on THIS request
 			authorised = o.RefAuth
+		} else if !authorised && o.RefAuth && c.Op != "" {
+			// a body field was changed after signing and the signature still verifies over what the
+			// implementation takes as the signed bytes of THIS body: the signature does not cover the
+			// field. That is the property's violation itself, not a harness inconsistency; the case
+			// stays unauthorised for the oracles below.
+			r.Violation("signature-does-not-cover-request-field:"+c.Server+"."+c.Method+":field="+c.Field, desc, c)
 		} else if authorised != o.RefAuth {
 			fatal("%s: the reference predicate says authorised=%v", c, o.RefAuth)
 		}
